@@ -67,7 +67,7 @@ def plan(tier, seed):
         jobs.append({"variant": v, "part": "threads", "shard": 104, "nshards": 1, "params": {"threads": 4, "rounds": 8 if thorough else 2, "steps": 120 if thorough else 60, "inject": True}})
         jobs.append({"variant": v, "part": "threads", "shard": 108, "nshards": 1, "params": {"threads": 8, "rounds": 6 if thorough else 2, "steps": 100 if thorough else 40, "inject": True}})
         for n in (4, 8):
-            jobs.append({"variant": v, "part": "roles", "shard": 400 + n, "nshards": 1, "params": {"threads": n, "rounds": 6 if thorough else 2, "iters": 60000 if thorough else 12000}})
+            jobs.append({"variant": v, "part": "roles", "shard": 400 + n, "nshards": 1, "params": {"threads": n, "rounds": 6 if thorough else 3, "iters": 60000 if thorough else 12000}})
     if thorough:
         for n in (4, 16):
             jobs.append({"variant": "asan", "part": "threads", "shard": 200 + n, "nshards": 1, "params": {"threads": n, "rounds": 10, "steps": 400, "inject": False}})
@@ -304,7 +304,21 @@ def role_calls():
     def mk(fn, *a, **k):
         return lambda: fn(*a, **k)
 
-    roles = {"render": [], "join": [], "construct": [], "modify": []}
+    roles = {"render": [], "join": [], "construct": [], "modify": [], "query": []}
+    # query arguments of every form whose VALUES differ from call to call (threads of this role start at different offsets, so at any
+    # moment they render different values): a value parked in shared state between two steps of one rendering shows up in another's result
+    qb = URL("http://example.com/p?z=0")
+    for j in range(24):
+        d = {f"key{j}a": f"v{j}a", f"key {j} é": f"v {j} é", "n": j, "f": j + 0.5, "lst": [f"x{j}", j]}
+        pairs = [(f"p{j}", f"w{j}"), (f"p{j}", j), ("é", f"€{j}")]
+        roles["query"].append((f"with_query(dict#{j})", lambda d=d: qb.with_query(d)))
+        roles["query"].append((f"extend_query(dict#{j})", lambda d=d: qb.extend_query(d)))
+        roles["query"].append((f"update_query(dict#{j})", lambda d=d: qb.update_query(d)))
+        roles["query"].append((f"build(query=dict#{j})", lambda d=d: URL.build(scheme="http", host="h", query=d)))
+        roles["query"].append((f"with_query(kwargs#{j})", lambda j=j: qb.with_query(a=f"k{j}", b=j, c=f"é{j}")))
+        roles["query"].append((f"with_query(pairs#{j})", lambda pairs=pairs: qb.with_query(pairs)))
+        roles["query"].append((f"with_query(str#{j})", lambda j=j: qb.with_query(f"a=s{j}&b=%2B{j}&é={j}")))
+        roles["query"].append((f"query_of#{j}", lambda j=j: URL(f"http://h/?a={j}&a=x{j}&b=é{j}").query))
     for t in SCHEME_TEXTS:
         roles["render"].append((f"str(URL({t!r}))", lambda t=t: str(URL(t))))
         roles["render"].append((f"URL({t!r}, encoded=True).human_repr()", lambda t=t: URL(t, encoded=True).human_repr()))
@@ -342,9 +356,11 @@ def run_roles(ctx):
             yarl.cache_clear()
             mism, errors, done = [], [], [0] * nthreads
             start = threading.Barrier(nthreads)
+            # threads come in PAIRS of the same role (two renderings of one kind overlap), the pairs rotate over the roles from round to round
+            kind_of = lambda ti, rd=rd: kinds[(ti // 2 + rd * (nthreads // 2)) % len(kinds)]
 
             def worker(ti):
-                kind = kinds[(ti + rd) % len(kinds)]
+                kind = kind_of(ti)
                 calls_, exp = roles[kind], expected[kind]
                 n = len(calls_)
                 try:
@@ -374,7 +390,7 @@ def run_roles(ctx):
                 ctx.fail("differs_from_sequential", {"round": rd, "thread": ti, "threads": nthreads, "part": "roles", "role": kind, "call": label},
                          f"role {kind} thread {ti}: {label} gave {str(got)[:160]} expected {str(want)[:160]}")
             total += sum(done)
-            for kind in {kinds[(ti + rd) % len(kinds)] for ti in range(nthreads)}:
+            for kind in {kind_of(ti) for ti in range(nthreads)}:
                 ctx.ev(("roles", kind, nthreads, rd % 3))
             ctx.count("role_rounds")
     finally:
